@@ -48,12 +48,46 @@ func (e *Engine) intrinsicFor(fn *ssa.Function) intrinsic {
 		}
 	}
 	if res == nil {
+		res = e.protoEnumString(fn)
+	}
+	if res == nil {
 		e.intrCache.Store(fn, nil)
 		return nil
 	}
 	e.intrCache.Store(fn, res)
 	e.usedIntrinsics.Store(name, true)
 	return res
+}
+
+// protoEnumString models the String method of generated protobuf enums (which goes
+// through descriptor reflection) by a lookup in the generated <Type>_name table.
+func (e *Engine) protoEnumString(fn *ssa.Function) intrinsic {
+	if fn.Name() != "String" || fn.Signature.Recv() == nil || fn.Pkg == nil {
+		return nil
+	}
+	named, ok := fn.Signature.Recv().Type().(*types.Named)
+	if !ok {
+		return nil
+	}
+	if b, ok := named.Underlying().(*types.Basic); !ok || b.Kind() != types.Int32 {
+		return nil
+	}
+	g, ok := fn.Pkg.Members[named.Obj().Name()+"_name"].(*ssa.Global)
+	if !ok {
+		return nil
+	}
+	return func(in *Interp, fr *frame, a []Value) Value {
+		m, _ := (*in.globalAddr(g)).(*Map)
+		i := in.mapFind(m, types.Typ[types.Int32], a[0])
+		if i < 0 {
+			v := a[0].(*Term)
+			if v.IsConst() {
+				return Str{s: fmt.Sprint(int32(v.c))}
+			}
+			return Str{s: "<sym>"}
+		}
+		return m.vals[i]
+	}
 }
 
 func (in *Interp) fresh(prefix string, w int) *Term {
@@ -288,6 +322,16 @@ func init() {
 		in.call(fr, 0, a[1], nil)
 		return nil
 	})
+	// sync.Pool: no pooling — Get always calls New (a legal behaviour of a pool)
+	reg("(*sync.Pool).Get", func(in *Interp, fr *frame, a []Value) Value {
+		st := (*in.ptrDeref(a[0])).(Struct)
+		newFn := st[len(st)-1]
+		if isNilFunc(newFn) {
+			return Iface{}
+		}
+		return in.call(fr, 0, newFn, nil)
+	})
+	reg("(*sync.Pool).Put", func(in *Interp, fr *frame, a []Value) Value { return nil })
 	// WaitGroup: counter kept in engine
 	reg("(*sync.WaitGroup).Add", func(in *Interp, fr *frame, a []Value) Value {
 		p := ptrKey(a[0])
@@ -516,6 +560,32 @@ func init() {
 	}
 	reg("sort.Slice", sortSlice(false))
 	reg("sort.SliceStable", sortSlice(true))
+
+	// ---- strings.Builder (uses unsafe to alias its buffer) ----
+	reg("(*strings.Builder).copyCheck", func(in *Interp, fr *frame, a []Value) Value { return nil })
+	reg("(*strings.Builder).String", func(in *Interp, fr *frame, a []Value) Value {
+		st := (*in.ptrDeref(a[0])).(Struct)
+		buf := st[1].(Slice)
+		if len(buf.a) == 0 {
+			return Str{}
+		}
+		out := make([]*Term, len(buf.a))
+		for i, e := range buf.a {
+			out[i] = e.(*Term)
+		}
+		return in.normStr(Str{b: out})
+	})
+	reg("internal/bytealg.MakeNoZero", func(in *Interp, fr *frame, a []Value) Value {
+		n := in.concInt(a[0])
+		sl := make([]Value, n)
+		z := in.ts.Const(8, 0)
+		for i := range sl {
+			sl[i] = z
+		}
+		return Slice{a: sl}
+	})
+	reg("internal/abi.NoEscape", func(in *Interp, fr *frame, a []Value) Value { return a[0] })
+	reg("internal/abi.Escape", func(in *Interp, fr *frame, a []Value) Value { return a[0] })
 
 	// ---- time ----
 	reg("time.Sleep", func(in *Interp, fr *frame, a []Value) Value { in.schedPoint("sleep"); return nil })
